@@ -18,12 +18,12 @@ RULE = (
     "newlines, non-ASCII; eval(repr(f)) in a namespace holding only the fmtfuncs names must give the same cells, and the AST may "
     "contain only those names, string literals, + and calls. Non-trivial: pair differing only in formatting or only in run "
     "boundaries; repr of a multi-run value with >=2 attributes on a run."
-    ' Both operands may be derived from observed parents (rendered/hashed before the derivation); pairs with the same display and the same number of runs but shifted or moved boundaries; repr texts include long whitespace-only runs.'
+    ' b may be a itself with formatting applied after a was rendered, hashed and compared. Both operands may be derived from observed parents (rendered/hashed before the derivation); pairs with the same display and the same number of runs but shifted or moved boundaries; repr texts include long whitespace-only runs.'
     ' Operands also as FmtStr-subclass instances; the terminal string of a as the text of a plain run (FmtStr() + str(a)) as partner; a fixed spread of values with invisible formatting (no runs, empty runs, switched-off styles only) against every derivation at every seed.'
 )
 ASSUMPTIONS = ["'same terminal string' is judged with the library's own str() (C01 establishes what str() displays)"]
 SHARDS = {"quick": 4, "thorough": 16}
-HOWS = ["same", "resplit", "shift_boundary", "shift_boundary", "move_empty_run", "add_empty_run", "add_false_att", "change_att", "change_text", "termstr_as_str", "termstr_in_plain_run", "text_as_str", "independent", "independent_str"]
+HOWS = ["reformat_observed_a", "same", "resplit", "shift_boundary", "shift_boundary", "move_empty_run", "add_empty_run", "add_false_att", "change_att", "change_text", "termstr_as_str", "termstr_in_plain_run", "text_as_str", "independent", "independent_str"]
 
 
 def derive(case):
@@ -79,6 +79,10 @@ def derive(case):
         i = k % len(b)
         b[i][0] = b[i][0] + "x" if k % 2 else b[i][0][1:]
         return {"desc": b}
+    if how == "reformat_observed_a":
+        # b is made from a by applying formatting to it after a was rendered, hashed and compared
+        extra = dict(case.get("extra_atts", {"fg": 31}))
+        return {"desc": [[t, {**at, **extra}] for t, at in b], "reformat": extra}
     if how == "termstr_as_str":
         return {"termstr_of_a": True}
     if how == "termstr_in_plain_run":
@@ -197,6 +201,18 @@ def run_case(case):
 
         b, bc = (FmtStr() + str(a)) if case.get("k", 0) % 2 else FmtStr().join([str(a)]), None
         res.label("escape_codes_as_plain_text_operand")
+        res.nontrivial = True
+    elif "reformat" in bspec:
+        from curtsies.formatstring import fmtstr
+
+        call(lambda: (str(a), hash(a), a == a, repr(a)))
+        extra = bspec["reformat"]
+        b, e_ = call(lambda: a.copy_with_new_atts(**extra) if case.get("k", 0) % 2 else fmtstr(a, **extra))
+        if e_ is not None:
+            res.viol("reformatting_raised", error=exc_str(e_), case=case)
+            return res
+        bc = cells_of_desc(bspec["desc"])
+        res.label("b_reformatted_from_observed_a")
         res.nontrivial = True
     elif "str" in bspec:
         b, bc = bspec["str"], [(ch, None, None, ()) for ch in bspec["str"]]
